@@ -174,8 +174,23 @@ func init() {
 	Generators["C14"] = func(t *rapid.T, tier string) any {
 		text, toks := baseText(t, tier)
 		out, note := mutateText(t, text, toks)
+		out, note = tallText(t, out, note)
 		return &TextCase{Bytes: []byte(out), Note: note}
 	}
+}
+
+// tallText (3 % of the cases): the text is moved down so that it starts around line 10, 100,
+// 1 000 or 10 000 (line numbers gaining a digit is where the rendering of errors changes its
+// layout), and some lines follow it.
+func tallText(t *rapid.T, text, note string) (string, string) {
+	if !gen.Chance(t, "tall", 3) {
+		return text, note
+	}
+	base := gen.Pick(t, "tall.base", []int{10, 100, 1000, 1000, 10000})
+	n := base - 3 + gen.Uniform(t, "tall.off", 5)
+	filler := gen.Pick(t, "tall.filler", []string{"\n", "\n", "// c\n", "\r\n"})
+	tail := gen.Pick(t, "tall.tail", []string{"", "\n", "\n\n", "\nsend [USD 1] (source = @a destination = @b)\n", "\n// end\n\n"})
+	return strings.Repeat(filler, n) + text + tail, "tall:" + note
 }
 
 func enumC14(tier string, shard, nshards int, visit func(any) bool) (string, bool) {
